@@ -20,6 +20,9 @@ Streams
   reenter  : the stub application submits a request from INSIDE its confirmation
              callback (same peer + same explicit ID | other ID | other peer) with
              1..4 younger transactions outstanding; model = frame, then request
+  late     : serving side with (apduTimeout, applicationTimeout, segmentTimeout) in all 27
+             orderings of {1000,3000,6000}: the application answers late but within its
+             allowance while the client retransmits; also end-to-end (two stacks)
   nextid   : get_next_invoke_id alone for every starting cursor 0..255 against
              random / adversarial occupancies
   corpus   : corpus/C11/*.json (pre-fix witnesses) first
@@ -219,7 +222,129 @@ def rand_cfg(rng, quick_timers=True):
     cfg["maxSegs"] = rng.choice([None, 2, 4, 8, 16, 32, 64, 65])
     cfg["window"] = rng.choice([1, 2, 2, 3, 4, 8, 127])
     cfg["retries"] = rng.choice([0, 1, 2, 3])
+    # the three timeouts are INDEPENDENT configuration dimensions (device apduTimeout, device
+    # apduSegmentTimeout, access point applicationTimeout): any ordering is legal
+    if rng.random() < 0.6:
+        cfg["apduTimeout"] = rng.choice(TIMEOUTS)
+        cfg["appTimeout"] = rng.choice(TIMEOUTS)
+        cfg["segTimeout"] = rng.choice(TIMEOUTS + [1500])
     return cfg
+
+
+TIMEOUTS = [1000, 3000, 6000]
+
+
+def advance(L, step, us):
+    """let `us` microseconds of virtual time pass, running every timer that becomes due on
+    the way through the real TaskManager (one event each)"""
+    target = L.now_us() + us
+    while True:
+        pend = L.pending()
+        if pend and pend[0][0] <= target:
+            step(L.fire_next)
+        else:
+            break
+    rest = target - L.now_us()
+    if rest > 0:
+        step(L.tick, rest)
+
+
+def late_answer_scenario(ctx, rng, label, combo=None):
+    """serving side with (apduTimeout, applicationTimeout, segmentTimeout) in any ordering: a
+    request arrives, the application answers LATE BUT WITHIN ITS ALLOWANCE (the access point's
+    applicationTimeout); meanwhile the client retransmits.  Oracle (C11, duplicate
+    suppression): while the application is within its allowance the retransmission is not
+    handed to it again, and its answer to the original goes out to the requester."""
+    cfg = T.default_cfg()
+    ta, tp, ts = combo if combo else (rng.choice(TIMEOUTS), rng.choice(TIMEOUTS), rng.choice(TIMEOUTS))
+    cfg.update(apduTimeout=ta, appTimeout=tp, segTimeout=ts, seg=3, maxSegs=16)
+    L = T.Lock(cfg, [])
+    L.label = label
+    O = Oracle(ctx, L, label)
+
+    def step(fn, *a):
+        n0 = len(L.events)
+        r = fn(*a)
+        for i in range(n0, len(L.events)):
+            O.after(L.events[i], L.replies[i])
+        return r
+    p, inv = rng.randrange(3), rng.choice([1, 77, 255])
+    segmented = rng.random() < 0.3
+    req = {"t": 0, "id": inv, "svc": 200, "maxResp": 5, "maxSegs": 4, "sa": 1, "hex": "0102"}
+    n_ind = 0
+    if segmented:
+        step(L.frame, p, dict(req, seg=1, mor=1, seq=0, win=2))
+        r = step(L.frame, p, dict(req, seg=1, mor=0, seq=1, win=2, hex="0304"))
+    else:
+        r = step(L.frame, p, req)
+    n_ind += sum(1 for o in r["out"] if o["o"] == "ind")
+    if n_ind != 1:
+        O.fail("late-answer", "the request was not indicated exactly once: %r" % (r["out"],), L.events[-1])
+        return L
+    allowance = tp * 1000                                   # µs the application may take
+    answer_at = int(allowance * rng.choice([0.3, 0.55, 0.8, 0.95]))
+    # the client retransmits once or twice before the answer (its own timeout is ITS business)
+    times = sorted(int(answer_at * f) for f in rng.sample([0.2, 0.4, 0.6, 0.85, 0.97], rng.choice([1, 2, 3])))
+    now = 0
+    for t in times:
+        advance(L, step, t - now)
+        now = t
+        r = step(L.frame, p, req if not segmented else dict(req, seg=1, mor=1, seq=0, win=2))
+        if any(o["o"] == "ind" for o in r["out"]):
+            O.fail("dup-request-within-allowance",
+                   "a retransmitted request was handed to the application again %d ms after the original, while the "
+                   "application is still within its allowance (applicationTimeout %d ms; device apduTimeout %d ms)" % (
+                       t // 1000, tp, ta), L.events[-1])
+    advance(L, step, answer_at - now)
+    r = step(L.response, p, {"t": 3, "id": inv, "svc": 200, "hex": "a1a2a3"})
+    sent = [o for o in r["out"] if o["o"] == "send" and o["h"][0] == 3 and o["peer"] == p]
+    if len(sent) != 1:
+        O.fail("answer-lost", "the application answered %d ms after the request (allowance %d ms, device apduTimeout %d ms) "
+               "and nothing went to the requester: %r" % (answer_at // 1000, tp, ta, r["out"]), L.events[-1])
+    return L
+
+
+def e2e_late_shard(ctx, items):
+    """end-to-end: client and server stacks with independent (apduTimeout, applicationTimeout,
+    segment timeout); the serving application answers late but within the server's
+    applicationTimeout; the client retransmits on its own apduTimeout.  The request must be
+    handed to the serving application exactly once and the client must get the answer."""
+    from . import e2e as E
+    from bacpypes.task import FunctionTask
+    for sc in items:
+        net = E.E2ENet()
+        a = net.add_stack(10, apdu_timeout=sc["a_apdu"], seg_timeout=sc["a_seg"], retries=3)
+        b = net.add_stack(20, apdu_timeout=sc["b_apdu"], seg_timeout=sc["b_seg"], app_timeout=sc["b_app"], retries=3)
+        b.response_payload = b"late"
+        orig = b._serve
+
+        def later(apdu, orig=orig):
+            FunctionTask(orig, apdu).install_task(delta=sc["delay"] / 1000.0)
+        b._serve = later
+        a.send_cpt(b, b"question")
+        net.run(until=net.vt.now + 60.0)
+        outcome = a.confirmations[0][1] if a.confirmations else "none"
+        if len(b.indications) != 1:
+            ctx.fail("e2e-dup-request-within-allowance", dict(sc, e2e="late"),
+                     "the request was handed to the serving application %d times (answer after %d ms, server "
+                     "applicationTimeout %d ms, server device apduTimeout %d ms, client apduTimeout %d ms)" % (
+                         len(b.indications), sc["delay"], sc["b_app"], sc["b_apdu"], sc["a_apdu"]))
+        if sc["delay"] < sc["a_apdu"] * 4 and outcome != "ack":
+            ctx.fail("e2e-answer-lost", dict(sc, e2e="late"),
+                     "the serving application answered within its allowance, the client got %r" % (a.confirmations[:2],))
+        ctx.count("e2e-late", (sc["a_apdu"], sc["b_apdu"], sc["b_app"], outcome))
+
+
+def e2e_late_cases():
+    out = []
+    for a_apdu in TIMEOUTS:
+        for b_apdu in TIMEOUTS:
+            for b_app in TIMEOUTS:
+                for frac in (0.5, 0.85):
+                    out.append({"a_apdu": a_apdu, "b_apdu": b_apdu, "b_app": b_app, "a_seg": 1500, "b_seg": 1500,
+                                "delay": int(b_app * frac) + 37})      # never the very instant of a retransmission
+    return out
+
 
 
 def rand_di(rng, npeers):
@@ -331,6 +456,11 @@ class Mix:
             sent_upto = ((tr.initialSequenceNumber or 0) + (tr.actualWindowSize or 1) - 1)
             last = min(sent_upto, (tr.segmentCount or 1) - 1) if tr.initialSequenceNumber else 0
             a = {"t": 4, "id": inv, "srv": 1, "seq": last % 256, "win": self.rng.choice([1, 2, 3, 4])}
+        elif st == 2 and (tr.segmentCount or 1) > 1 and self.rng.random() < 0.3:
+            # a duplicated / delayed final SegmentAck of the segmented request reaches the client
+            # that already waits for the confirmation (AWAIT_CONFIRMATION): must change nothing
+            a = {"t": 4, "id": inv, "srv": 1, "nak": self.rng.choice([0, 0, 1]),
+                 "seq": ((tr.segmentCount or 1) - 1) % 256, "win": tr.actualWindowSize or 1}
         elif st == 2:
             a = self.reply_header(p, inv, self.rng.choice(["simple", "complex", "complex", "error", "reject", "abort", "complexseg"]))
             if a.get("seg"):
@@ -714,6 +844,9 @@ def shard_mix(ctx, spec):
             locks.append(independent_scenario(ctx, rng, label))
         elif kind == "reenter":
             locks.append(reenter_scenario(ctx, rng, label))
+        elif kind == "late":
+            combos = [(x, y, z) for x in TIMEOUTS for y in TIMEOUTS for z in TIMEOUTS]
+            locks.append(late_answer_scenario(ctx, rng, label, combos[i % 27]))
     T.compare(ctx, kind, locks)
     if locks:
         ctx.sample({"stream": kind, "reset": locks[0].reset_line, "first_events": locks[0].events[:4]})
@@ -785,9 +918,13 @@ def run(ctx):
     specs += [("wrap", i, i + 1, ev_wrap) for i in range(n_wrap)]
     specs += [("exhaust", i, i + 1, 0) for i in range(2 if q else 16)]
     specs += [("indep", 0, 8 if q else 64, 0)]
+    n_late = 54 if q else 2160
+    specs += [("late", lo, min(lo + n_late // 4, n_late), 0) for lo in range(0, n_late, n_late // 4)]
     n_re = 160 if q else 3200
     specs += [("reenter", lo, min(lo + n_re // 8, n_re), 0) for lo in range(0, n_re, n_re // 8)]
     core.run_shards(ctx, "harness.c11", "shard_mix", specs)
+    lc = e2e_late_cases()
+    core.run_shards(ctx, "harness.c11", "e2e_late_shard", [lc[i::4] for i in range(4)])
     rng = ctx.sub_rng("c11/nextid")
     cases = nextid_cases(ctx, rng)
     if q:
@@ -821,6 +958,9 @@ def replay(ctx, payload):
     if isinstance(case, dict) and "script_scenario" in case:
         from . import c04_impl
         return c04_impl.replay_impl(ctx, case)
+    if isinstance(case, dict) and case.get("e2e") == "late":
+        e2e_late_shard(ctx, [case])
+        return
     if isinstance(case, dict) and "events" in case:
         L = replay_events(ctx, "replay", case["reset"], case["events"])
         T.compare(ctx, "replay", [L])
